@@ -43,7 +43,7 @@ Ltac fin := simpl; repeat split; intros; try discriminate; try lia; auto.
 Lemma inv_step : forall s o, inv s -> inv (hstep s o).
 Proof.
   intros [av f k c rel rs ft st rq] o [Hc [Ha [Hb Hz]]]; simpl in *.
-  destruct o as [n| | | | |ft' st']; unfold hstep, loop_top, inv; simpl;
+  destruct o as [n| | | | |ft' st'|]; unfold hstep, loop_top, inv; simpl;
     destruct av, rel; prep; cmp; fin.
 Qed.
 
@@ -81,7 +81,7 @@ Theorem out_iff_threshold : forall s o,
 Proof.
   intros [av f k c rel rs ft st rq] o; simpl. split.
   - intros [Hav Hout]. subst av.
-    destruct o as [n| | | | |ft' st']; unfold hstep, loop_top in Hout; simpl in Hout.
+    destruct o as [n| | | | |ft' st'|]; unfold hstep, loop_top in Hout; simpl in Hout.
     + exists n. split; [reflexivity|]. split; [reflexivity|].
       destruct (f + n >=? ft) eqn:E; [rewrite Z.geb_leb in E; apply Z.leb_le in E; lia|simpl in Hout; discriminate].
     + discriminate.
@@ -89,6 +89,7 @@ Proof.
       destruct (k + 1 >=? rq); simpl in Hout; [discriminate|]. destruct rel; simpl in Hout; discriminate.
     + destruct (c <=? 0); simpl in Hout; [discriminate|]. destruct rel; simpl in Hout; discriminate.
     + destruct rel; simpl in Hout; discriminate.
+    + discriminate.
     + discriminate.
   - intros [n [-> [Hav Hge]]]. split; [exact Hav|]. unfold hstep; simpl.
     destruct (f + n >=? ft) eqn:E; [reflexivity|]. rewrite Z.geb_leb in E. apply Z.leb_gt in E. lia.
@@ -101,7 +102,7 @@ Theorem back_iff_succ : forall s o,
 Proof.
   intros [av f k c rel rs ft st rq] o; simpl. split.
   - intros [Hav Hb]. subst av.
-    destruct o as [n| | | | |ft' st']; unfold hstep, loop_top in Hb; simpl in Hb.
+    destruct o as [n| | | | |ft' st'|]; unfold hstep, loop_top in Hb; simpl in Hb.
     + destruct (f + n >=? ft); simpl in Hb; discriminate.
     + discriminate.
     + split; [reflexivity|]. split; [reflexivity|].
@@ -110,6 +111,7 @@ Proof.
       destruct rel; simpl in Hb; discriminate.
     + destruct (c <=? 0); simpl in Hb; [discriminate|]. destruct rel; simpl in Hb; discriminate.
     + destruct rel; simpl in Hb; discriminate.
+    + discriminate.
     + discriminate.
   - intros [-> [Hav [Hc Hk]]]. split; [exact Hav|]. unfold hstep; simpl.
     destruct (c <=? 0) eqn:Ec; [apply Z.leb_le in Ec; lia|].
@@ -134,7 +136,7 @@ Theorem release_stops : forall s o, released s = true ->
   ((o = CheckOk \/ o = CheckFail) -> checkers s >= 1 -> checkers (hstep s o) = checkers s - 1).
 Proof.
   intros [av f k c rel rs ft st rq] o Hr; simpl in Hr; subst rel.
-  destruct o as [n| | | | |ft' st']; unfold hstep, loop_top; simpl.
+  destruct o as [n| | | | |ft' st'|]; unfold hstep, loop_top; simpl.
   - destruct (f + n >=? ft); simpl; [rewrite andb_false_r|]; repeat split; try lia; intros [H|H]; discriminate.
   - repeat split; try lia. intros [H|H]; discriminate.
   - destruct (c <=? 0) eqn:Ec; simpl.
@@ -143,6 +145,7 @@ Proof.
   - destruct (c <=? 0) eqn:Ec; simpl.
     + apply Z.leb_le in Ec. repeat split; try lia.
     + repeat split; lia.
+  - repeat split; try lia. intros [H|H]; discriminate.
   - repeat split; try lia. intros [H|H]; discriminate.
   - repeat split; try lia. intros [H|H]; discriminate.
 Qed.
@@ -161,7 +164,7 @@ Proof.
          [Hc [Ha [Hb Hz]]] [R1 [R2 [R3 [R4 [R5 [R6 [R7 [R8 R9]]]]]]]].
   simpl in *. subst mav mc mk mrel mft mst mp mrq.
   assert (Hc01 : c = 0 \/ c = 1) by lia.
-  destruct o as [n| | | | |ft' st']; unfold mon_step, hstep, loop_top, issue, R; simpl.
+  destruct o as [n| | | | |ft' st'|]; unfold mon_step, hstep, loop_top, issue, R; simpl.
   - (* ReqFail *)
     destruct (f + n >=? ft) eqn:E; simpl.
     + destruct av, rel, mdr; simpl; try (specialize (Ha eq_refl)); try (specialize (Hb eq_refl eq_refl));
@@ -210,6 +213,12 @@ Proof.
       simpl; rewrite ?Z.eqb_refl; simpl;
       try (destruct Hc01 as [-> | ->]; simpl);
       eexists; (split; [reflexivity|]); simpl; repeat split; auto; try lia; try discriminate.
+  - (* RemoveCluster *)
+    destruct av, rel, mdr; simpl; try (specialize (Ha eq_refl)); try (specialize (Hb eq_refl eq_refl));
+      try (destruct (R9 eq_refl) as [? ?]; try discriminate); subst;
+      simpl; rewrite ?Z.eqb_refl; simpl;
+      try (destruct Hc01 as [-> | ->]; simpl);
+      eexists; (split; [reflexivity|]); simpl; repeat split; auto; try lia; try discriminate.
 Qed.
 
 Definition obs_of (s : hstate) : bool * Z := (avail s, checkers s).
@@ -234,7 +243,7 @@ Proof. intros. unfold R, h_init, mon_init; simpl. repeat split; try reflexivity;
 Lemma dec_obs_enc : forall l, all_some (map dec_obs (map enc_h l)) = Some (map obs_of l).
 Proof.
   induction l as [|s l IH]; [reflexivity|]. simpl. rewrite IH.
-  unfold obs_of. destruct (avail s), (restarted s); reflexivity.
+  unfold obs_of. rewrite Z.eqb_refl. destruct (avail s), (restarted s); reflexivity.
 Qed.
 Lemma hrun_length : forall ops s, length (hrun s ops) = length ops.
 Proof. induction ops as [|o r IH]; intros s; simpl; [reflexivity|]. rewrite IH. reflexivity. Qed.
@@ -258,3 +267,19 @@ Lemma ex_wire :
   let i := VL [VZ 2; VZ 2; VL [VL [VZ 1; VZ 1]; VL [VZ 1; VZ 3]; VL [VZ 3]; VL [VZ 6; VZ 1; VZ 1]; VL [VZ 3]; VL [VZ 5]; VL [VZ 4]]] in
   dec_input i <> None /\ run_C06 i <> VErr 0.
 Proof. split; vm_compute; discriminate. Qed.
+
+(* ---------- removal of the backend or of its whole cluster ---------- *)
+Lemma remove_cluster_releases : forall s,
+  released (hstep s RemoveCluster) = true /\ checkers (hstep s RemoveCluster) = checkers s /\
+  avail (hstep s RemoveCluster) = avail s.
+Proof. intros s. unfold hstep. simpl. repeat split. Qed.
+(* once released (by Release or RemoveCluster, in any state: up, down with a check outstanding, with or without a
+   check conf) no later history ever raises the number of checkers again, and it drops to 0 with the first check result *)
+Lemma released_forever : forall ops s, released s = true ->
+  Forall (fun s' => released s' = true /\ checkers s' <= checkers s) (hrun s ops).
+Proof.
+  induction ops as [|o r IH]; intros s Hr; simpl; [constructor|].
+  destruct (release_stops s o Hr) as [H1 [H2 _]].
+  constructor; [split; assumption|].
+  eapply Forall_impl; [|apply IH; exact H1]. intros s' [A B]. split; [exact A|lia].
+Qed.
